@@ -31,7 +31,10 @@ def load_known(prop: str) -> List[Dict]:
 
 def sig_matches(known: Dict, viol: Dict) -> bool:
     """A known finding lists the exact signature of the failing call site / input / history class."""
-    if known["sig"] != viol.get("sig"):
+    if "sig_prefix" in known:
+        if not str(viol.get("sig", "")).startswith(known["sig_prefix"]):
+            return False
+    elif known["sig"] != viol.get("sig"):
         return False
     for k, v in (known.get("detail_match") or {}).items():
         cur: Any = viol.get("detail", {})
